@@ -202,8 +202,11 @@ pub fn case_seek_storm(out: &mut CaseOut, seed: u64, idx: u64, prop: &str) {
     let mut rng = Rng::new(mix(&[seed, idx], "c10-seek"));
     let d = director();
     d.reset(rng.next_u64());
+    // every third storm charges the files through the read sampling of database iterators (one
+    // sample per ~1 MiB iterated, hence the large values) instead of through point lookups
+    let by_scan = (idx / 4) % 3 == 1;
     // big memtable: nothing flushes unless asked; files are placed by explicit flushes
-    let cfg = Config { memtable: 1 << 20, file: 1 << 20, block: 4096, reuse: true };
+    let cfg = Config { memtable: if by_scan { 16 << 20 } else { 1 << 20 }, file: if by_scan { 16 << 20 } else { 1 << 20 }, block: 4096, reuse: true };
     let fs = SimFs::from_image(&crate::dbutil::root_image());
     let mut sess = Session::new(fs, cfg);
     if let Err(e) = sess.open() {
@@ -211,6 +214,24 @@ pub fn case_seek_storm(out: &mut CaseOut, seed: u64, idx: u64, prop: &str) {
         return;
     }
     let pool = gen::key_pool(&mut rng, KeyFamily::Ascii, 40);
+    let storm_scan = |sess: &Session, out: &mut CaseOut, when: &str| {
+        let got = sess.scan(None);
+        out.add("storm_scans", 1);
+        if reads {
+            match got {
+                Err(e) => out.violate(format!("{prop}/seek-storm/scan-error/{when}"), json!({"error": e})),
+                Ok(entries) => {
+                    let scanned: std::collections::BTreeMap<Vec<u8>, Vec<u8>> = entries.into_iter().collect();
+                    if scanned != sess.model {
+                        let bad = sess.model.keys().chain(scanned.keys()).find(|k| scanned.get(*k) != sess.model.get(*k)).cloned().unwrap_or_default();
+                        out.violate(format!("{prop}/seek-storm/scan-changed-by-seek-compaction/{when}"),
+                            json!({"first_differing_key": show(&bad), "scanned_entries": scanned.len(), "expected_entries": sess.model.len(),
+                                "files": sess.db().verif_files().iter().map(|f| format!("L{}#{}[{}..{}]", f.level, f.number, show(&f.smallest.user_key), show(&f.largest.user_key))).collect::<Vec<_>>()}));
+                    }
+                }
+            }
+        }
+    };
     let storm_get = |sess: &Session, out: &mut CaseOut, k: &Vec<u8>, when: &str| {
         let got = sess.get(k);
         if reads {
@@ -293,7 +314,11 @@ pub fn case_seek_storm(out: &mut CaseOut, seed: u64, idx: u64, prop: &str) {
     for (lo, hi, step) in &ranges {
         for k in pool[*lo..=*hi].iter().step_by(*step) {
             counter += 1;
-            if sess.put(k, format!("v{counter}").as_bytes()).is_err() {
+            let mut value = format!("v{counter}").into_bytes();
+            if by_scan {
+                value.resize(48 << 10, b'a' + (counter % 23) as u8);
+            }
+            if sess.put(k, &value).is_err() {
                 out.inconclusive("degenerate: write refused");
                 return;
             }
@@ -320,6 +345,18 @@ pub fn case_seek_storm(out: &mut CaseOut, seed: u64, idx: u64, prop: &str) {
         let mut gets = 0u64;
         let mut arrived = false;
         'storm: for _ in 0..400 {
+            if by_scan {
+                storm_scan(&sess, out, "while-charging-seeks");
+                gets += 1;
+                if d.is_arrived(gate) {
+                    arrived = true;
+                    break 'storm;
+                }
+                if out.is_violated() {
+                    break 'storm;
+                }
+                continue;
+            }
             for k in &pool {
                 storm_get(&sess, out, k, "while-charging-seeks");
                 gets += 1;
@@ -334,7 +371,11 @@ pub fn case_seek_storm(out: &mut CaseOut, seed: u64, idx: u64, prop: &str) {
             // the candidate is pending and the worker is parked: keep charging seeks
             // random order and a random stopping point: which file was charged last must not
             // depend on the order of the pool
-            for _ in 0..rng.range(110 * pool.len() as u64, 220 * pool.len() as u64) {
+            for _ in 0..(if by_scan { rng.range(40, 80) } else { 0 }) {
+                storm_scan(&sess, out, "while-the-worker-is-parked");
+                gets += 1;
+            }
+            for _ in 0..(if by_scan { 0 } else { rng.range(110 * pool.len() as u64, 220 * pool.len() as u64) }) {
                 let k = rng.pick(&pool[..]);
                 storm_get(&sess, out, k, "while-the-worker-is-parked");
                 gets += 1;
@@ -373,10 +414,10 @@ pub fn case_seek_storm(out: &mut CaseOut, seed: u64, idx: u64, prop: &str) {
     out.add("seek_triggered_compactions", seek_compactions);
     out.add("windows_achieved", windows);
     if windows > 0 && levels_used >= 2 {
-        out.nontrivial(format!("seek-storm/levels{levels_used}/layers{layers}/windows{windows}"));
+        out.nontrivial(format!("seek-storm/{}/levels{levels_used}/layers{layers}/windows{windows}", if by_scan { "iterator-read-samples" } else { "lookups" }));
     }
     sess.close();
-    out.sample = Some(json!({"family": "seek-storm", "config": cfg.describe(), "files_before": shape_before, "rounds_with_parked_worker": windows,
+    out.sample = Some(json!({"family": "seek-storm", "charged_by": if by_scan { "iterator read samples" } else { "point lookups" }, "config": cfg.describe(), "files_before": shape_before, "rounds_with_parked_worker": windows,
         "compactions_picked": seek_compactions, "layouts_checked": oracle.layouts_checked}));
 }
 
